@@ -11,6 +11,7 @@ from ..viol import Violation, require
 ID = 'C18'
 LEVEL = 'exploration'
 RULE = (
+    'H: histories (dd.autoref and dd.bdd, reorderings, dynamic reordering) in which the views are taken of held references, and handles created before a reordering are traversed again after it (var == var_at_level(level), support, len, dag_size). '
     'Sandwich: succ / descendants / to_nx / DOT views of functions in a manager with an unused variable, before and after one perturbation (undeclare / declare / swap / collect / reorder / sift). Roots are passed as set, list, iterator or generator. '
     'E: every function of n<=4 variables (n<=3 all orders; n=4 seeded '
     'orders, 2 quick / 4 thorough), regular and complemented roots; R: '
